@@ -1,12 +1,19 @@
 import Bmc.Proofs.C01
+import Bmc.Proofs.GenKeys.TranslatedOk
 import Bmc.Proofs.GenKeys.SIK
 import Bmc.Proofs.GenKeys.Rakp2
 import Bmc.Proofs.GenKeys.Rakp3
 import Bmc.Proofs.GenKeys.ICV
 import Bmc.Proofs.GenKeys.KConstant
 import Bmc.Proofs.GenKeys.Tables
+import Bmc.Proofs.GenKeys.Integrity
 import Bmc.Proofs.GenKeys.Cipher
+import Bmc.Proofs.GenHs.TranslatedOk
 import Bmc.Proofs.GenHs.Model
+import Bmc.Proofs.GenHs.Wrappers
+import Bmc.Proofs.GenHs.NewV2Session
+import Bmc.Proofs.GenHs.Examples
+import Bmc.Proofs.EndToEnd.HandshakeC01
 #print axioms Bmc.Proofs.C01.keys_are_spec
 #print axioms Bmc.Proofs.C01.session_ids
 #print axioms Bmc.Proofs.C01.unsupported_refused
@@ -22,6 +29,8 @@ import Bmc.Proofs.GenHs.Model
 #print axioms Bmc.Proofs.C01.command_answered
 #print axioms Bmc.Proofs.C01.all_commands_answered
 #print axioms Bmc.Proofs.C01.session_then_commands
+#print axioms Bmc.Proofs.GenKeys.translated_ok
+#print axioms Bmc.Proofs.GenKeys.hashOf_ok
 #print axioms Bmc.Proofs.GenKeys.calculateSIK_input_eq
 #print axioms Bmc.Proofs.GenKeys.calculateRAKPMessage2AuthCode_input_eq
 #print axioms Bmc.Proofs.GenKeys.calculateRAKPMessage3AuthCode_input_eq
@@ -35,9 +44,30 @@ import Bmc.Proofs.GenHs.Model
 #print axioms Bmc.Proofs.GenKeys.icvLen_is_table
 #print axioms Bmc.Proofs.GenKeys.constructors_are_hmac
 #print axioms Bmc.Proofs.GenKeys.truncatedHash_Size_eq
+#print axioms Bmc.Proofs.GenKeys.algorithmHasher_is_integMac
 #print axioms Bmc.Proofs.GenKeys.algorithmCipher_key
 #print axioms Bmc.Proofs.GenKeys.algorithmCipher_key_is_take16
+#print axioms Bmc.Proofs.GenHs.translated_ok
+#print axioms Bmc.Proofs.GenHs.gaveUp_none
 #print axioms Bmc.Proofs.GenHs.stepOpen_is_checks
 #print axioms Bmc.Proofs.GenHs.stepRakp2_is_checks
 #print axioms Bmc.Proofs.GenHs.stepRakp4_is_checks
 #print axioms Bmc.Proofs.GenHs.newSession_is_hsRun
+#print axioms Bmc.Proofs.GenHs.openSession_gen_eq
+#print axioms Bmc.Proofs.GenHs.rakpMessage1_gen_eq
+#print axioms Bmc.Proofs.GenHs.rakpMessage3_gen_eq
+#print axioms Bmc.Proofs.GenHs.newV2Session_gen_eq
+#print axioms Bmc.Proofs.GenHs.newV2Session_no_suite
+#print axioms Bmc.Proofs.GenHs.newV2Session_total
+#print axioms Bmc.Proofs.GenHs.keys_view_ignores_authCode
+#print axioms Bmc.Proofs.GenHs.toy_session
+#print axioms Bmc.Proofs.GenHs.toy_wrong_code
+#print axioms Bmc.Proofs.GenHs.toy_wrong_icv
+#print axioms Bmc.Proofs.GenHs.toy_gen_eq
+#print axioms Bmc.Proofs.EndToEnd.rakp2Code_fields
+#print axioms Bmc.Proofs.EndToEnd.rakp3Code_fields
+#print axioms Bmc.Proofs.EndToEnd.sikOf_fields
+#print axioms Bmc.Proofs.EndToEnd.icvOf_fields
+#print axioms Bmc.Proofs.EndToEnd.hsRun_live
+#print axioms Bmc.Proofs.EndToEnd.hsRun_against_spec_bmc
+#print axioms Bmc.Proofs.EndToEnd.generated_newV2Session_live
